@@ -25,6 +25,7 @@ import GeoProofs.Lemmas.C02YContains
 import GeoProofs.Lemmas.C02YPointSpec
 import GeoProofs.Lemmas.C02YLinear
 import GeoProofs.Lemmas.C02YRect
+import GeoProofs.Lemmas.C02YLoop
 
 namespace Geo.Proofs.C02
 open Geo
@@ -1321,6 +1322,19 @@ example : containsM (.lineString [⟨0, 0⟩, ⟨4, 0⟩]) (.line ⟨1, 0⟩ ⟨
         obtain ⟨t, t0, t1, hx1, hx2⟩ := hx
         exact ⟨1 / 4 + t / 2, by linarith, by linarith, by rw [hx1]; ring, by rw [hx2]; ring⟩⟩,
       fun _ => by decide +kernel⟩
+
+/-- [T] **the truncation loop has no false positive**: `LineString.contains(Line) = true` (non-degenerate line, ANY line
+string) implies the mask `T*****FF*` on the specification. Loop invariant of `cutStep` (`Geo.Proofs.C02Y.Inv`): every point of
+the query segment is on the line string or on what is left of the query, `[s, e]`; after `return true` every point is on the
+line string (`Geo.Proofs.C02Y.lsContainsLine_sound`). The converse (two passes always suffice on a simple line string) is the
+open half of `containsM_lineString_line_partial`. -/
+theorem containsM_lineString_line_sound (cs : List Pt) (c d : Pt) (hb : inDomain (.line c d) = true)
+    (h : containsM (.lineString cs) (.line c d) = true) :
+    Gen.isContains (relateSpec (.lineString cs) (.line c d)) = true :=
+  Geo.Proofs.C02Y.containsM_lineString_line_sound cs c d hb h
+
+example : Gen.isContains (relateSpec (.lineString [⟨0, 0⟩, ⟨2, 0⟩, ⟨4, 0⟩, ⟨4, 4⟩]) (.line ⟨3, 0⟩ ⟨1, 0⟩)) = true :=
+  containsM_lineString_line_sound _ _ _ (by decide +kernel) (by decide +kernel)
 
 /-- [T] **`Rect: Contains<Rect>` (four non-strict comparisons) is the mask on the specification**, both Rects of positive width
 and height (for a degenerate operand it is not: K7, `rectContainsRect_degenerate_witness`). Both operands are areal: the
